@@ -271,7 +271,7 @@ class NetworkService(ModelElement):
             # set the site property if possible
             old_site = self.site
             inferred_site = sites.pop()
-            if not old_site:
+            if not old_site and inferred_site:
                 self.site = inferred_site
 
             if old_site and old_site != inferred_site:
